@@ -669,6 +669,11 @@ class Taint:
                 self._expr(st.test, g)
                 self._stmts(st.body, g or p == 1)
                 self._stmts(st.orelse, g or p == -1)
+                # guard clause: when the explicit-year side of the test always leaves the function, everything that
+                # follows is reached only without a year (dominance by early return = an enclosing else)
+                if isinstance(st, ast.If):
+                    if (p == -1 and _terminates(st.body)) or (p == 1 and st.orelse and _terminates(st.orelse)):
+                        g = True
             elif isinstance(st, (ast.For, ast.AsyncFor)):
                 self._expr(st.iter, g)
                 self._stmts(st.body, g)
@@ -698,6 +703,18 @@ class Taint:
                 for ch in ast.iter_child_nodes(st):
                     if isinstance(ch, ast.expr):
                         self._expr(ch, g)
+
+
+def _terminates(stmts):
+    """every path through the statement list leaves the function (return / raise)"""
+    if not stmts:
+        return False
+    last = stmts[-1]
+    if isinstance(last, (ast.Return, ast.Raise)):
+        return True
+    if isinstance(last, ast.If):
+        return bool(last.orelse) and _terminates(last.body) and _terminates(last.orelse)
+    return False
 
 
 def _callee_name(call):
@@ -1244,6 +1261,10 @@ def run(chk):
         for ln, c2, nf, ok, msg in assembly_match_to_date(fn, b, consts, p, idx):
             chk.judge(ok, 'C06.assembly', k.mod.path, '%s::%s' % (cons, c2), nf, '%s: %s' % (cons, msg), ln)
     # positive controls
+    _guard_ctl = ast.parse("def generate_dates(no_year, reference, year, month, day):\n    a = make(year, month, day)\n"
+                           "    if no_year:\n        return a, a\n    if a < reference:\n        a = make(year + 1, month, day)\n    return a, a\n").body[0]
+    if not taint_generate_dates(_guard_ctl)[0]:
+        raise AnalysisError('internal: the guard-clause form of the taint rule lost its positive control')
     chk.control('C06.taint', bool(taint_generate_dates(ast.parse(_TAINT_CONTROL).body[0])[0])
                 and bool(taint_match_to_date(ast.parse(_TAINT_CONTROL2).body[0], ['no_year', 'reference', 'year', 'month', 'day'])[0]))
     ctl = ast.parse('def generate_dates(no_year, reference, year, month, day):\n'
